@@ -321,6 +321,14 @@ func cmdCheck(args []string) int {
 	wall := time.Since(t0).Seconds()
 	fmt.Printf("govc: property=%s tier=%s functions=%d obligations=%d discharged=%d violations=%d vacuity-failures=%d load=%.1fs gen=%.1fs solve=%.1fs\n",
 		*prop, *tier, len(fnsUnder), nObl, nDis, nViol, nVac, tLoad.Seconds(), tGen.Seconds(), tSolve.Seconds())
+	if *verbose {
+		for _, k := range sortedKeys(uncontracted) {
+			fmt.Printf("  uncontracted call: %s x%d\n", k, uncontracted[k])
+		}
+		for _, k := range sortedKeys(abstractions) {
+			fmt.Printf("  abstraction: %s x%d\n", k, abstractions[k])
+		}
+	}
 	if nObl == 0 {
 		fmt.Println("BROKEN: no obligations generated")
 		broken = true
